@@ -184,6 +184,10 @@ def catalogue_c09(tier):
     cs.append(case('c09/observe_on-stacked/burst6-error', oo(oo(S(1))), [items(1, 6) + [E(1, 'e', 5)]], tags=['observe_on']))
     # a source that stays silent for a long (virtual) time between two events, and the same observable subscribed twice
     cs.append(case('c09/observe_on-direct/long-gap', oo(S(1)), [[E(1, 'n', 11), SL(2500), E(1, 'n', 12), SL(4000), E(1, 'c')]], tags=['observe_on']))
+    # a feedback consumer: the callback for item 11 (on the worker) pushes 21 into the source while the emitter's later items may
+    # still be queued - the fed-back item takes its turn in the queue, no callback runs inside another
+    cs.append(dict(case('c09/observe_on-direct/feedback', oo(S(1)), [items(1, 3) + [SL(50)]], tags=['observe_on', 'feedback']), fb_item=11, fb_src=1, fb_v=21))
+    cs.append(dict(case('c09/observe_on-below-map/feedback', T('map', 0, 'inc', ins=[oo(S(1))]), [items(1, 2) + [SL(50)]], tags=['observe_on', 'feedback']), fb_item=11, fb_src=1, fb_v=21))
     cold3 = oo(T('from_iter', items=[1, 2, 3]))
     cs.append(case('c09/observe_on-cold/twice', cold3, [[SL(100), {'op': 'sub', 'u': 2}, SL(100)]], tags=['observe_on', 'cold3']))
     so = T('subscribe_on', ins=[T('from_iter', items=[1, 2, 3])])
@@ -271,6 +275,8 @@ def catalogue_c15(tier):
           timed(case('c15/interval-1500-take1', T('take', 1, ins=[T('interval', 1500)]), [[SL(5000)]], tags=W), 1500),
           timed(case('c15/debounce-complete', T('debounce', 100, ins=[S(1)]), [[E(1, 'n', 11), SL(150), E(1, 'c'), SL(400)]], tags=W), 100),
           timed(case('c15/debounce-unsub', T('debounce', 100, ins=[S(1)]), [[E(1, 'n', 11), SL(150), UNSUB1, SL(400)]], tags=W), 100),
+          timed(dict(case('c15/debounce-feedback-unsub', T('debounce', 100, ins=[S(1)]), [[E(1, 'n', 11), SL(350), UNSUB1, SL(400)]], tags=W), fb_item=11, fb_src=1, fb_v=12), 100),
+          timed(dict(case('c15/observe_on-feedback-unsub', T('observe_on', ins=[S(1)]), [[E(1, 'n', 11), SL(50), UNSUB1, SL(300)]], tags=W), fb_item=11, fb_src=1, fb_v=21), 100),
           timed(case('c15/timeout-complete', T('timeout', 100, ins=[S(1)]), [[E(1, 'n', 11), SL(20), E(1, 'c'), SL(500)]], tags=W), 100),
           timed(case('c15/timeout-unsub', T('timeout', 100, ins=[S(1)]), [[E(1, 'n', 11), SL(20), UNSUB1, SL(500)]], tags=W), 100),
           timed(case('c15/timeout-take2-ends-during-delivery', T('take', 2, ins=[T('timeout', 100, ins=[S(1)])]), [[E(1, 'n', 11), SL(20), E(1, 'n', 12), SL(500)]], tags=W), 100),
@@ -306,6 +312,9 @@ def catalogue_c16(tier):
             # the same sample / debounce observable subscribed again after the first subscriber left with an item still pending:
             # the second subscriber's ticks deliver only what its own subscription received
             SUB2, U1 = {'op': 'sub', 'u': 2}, {'op': 'unsub', 'u': 1}
+            # feedback consumers: the callback fires sample's trigger again / pushes debounce's source again from inside the delivery
+            cs += [timed(dict(case('c16/sample-%d-feedback' % d, T('sample', ins=[S(1), S(2)]), [[E(1, 'n', 11), E(2, 'n', 0), E(1, 'n', 12), E(2, 'n', 0), E(2, 'n', 0)]], tags=['subset']), fb_item=11, fb_src=2, fb_v=0), d),
+                   timed(dict(case('c16/debounce-%d-feedback' % d, T('debounce', d, ins=[S(1)]), [[E(1, 'n', 11), SL(3 * d + d // 2), {'op': 'unsub', 'u': 1}, SL(2 * d)]], tags=['subset']), fb_item=11, fb_src=1, fb_v=12), d)]
             cs += [timed(case('c16/sample-%d-resubscribed' % d, T('sample', ins=[S(1), S(2)]), [[E(1, 'n', 11), U1, SUB2, E(2, 'n', 0), E(1, 'n', 12), E(2, 'n', 0), E(2, 'n', 0)]], tags=['subset', 'resub']), d),
                    timed(case('c16/debounce-%d-resubscribed' % d, T('debounce', d, ins=[S(1)]), [[E(1, 'n', 11), U1, SUB2, SL(d + d // 2), E(1, 'n', 12), SL(2 * d), {'op': 'unsub', 'u': 2}, SL(2 * d)]], tags=['subset', 'resub']), d)]
     return cs
@@ -981,7 +990,7 @@ def load_known():
     return out
 
 
-def sig_in_order_modulo_repeats(lines):
+def sig_in_order_modulo_repeats(lines, nogap=False):
     """the late-subscriber findings: an item whose push OVERLAPS the late subscriber's subscribe() call may reach it twice, the
     live copy anywhere before the copy it is handed / replayed; once that first copy of each such duplicated item is dropped,
     every subscriber has each producer's items once and in order (a gap is possible for BehaviorSubject).  An item that arrives
@@ -1000,9 +1009,13 @@ def sig_in_order_modulo_repeats(lines):
         elif e['ev'] == 'emitret' and e['k'] == 'n' and e['v'] in calls:
             calls[e['v']][1] = i
     per = {}
+    left = set(e['u'] for e in ev if e['ev'] == 'unsubcall')
     for e in ev:
         if e['ev'] == 'cbstart' and e['k'] == 'n':
             per.setdefault(e['u'], []).append(e['v'])
+    if nogap:
+        for u in sub:
+            per.setdefault(u, [])
     for u, vs in per.items():
         s0, s1 = sub.get(u, [0, 0])
         overlap = set(v for v, (c, r) in calls.items() if c < s1 and r > s0)
@@ -1014,6 +1027,12 @@ def sig_in_order_modulo_repeats(lines):
             seq = [v for v in rest if v // 10 == prod]
             if seq != sorted(set(seq)):
                 return False
+        if nogap and u not in left:
+            # ReplaySubject: the recorded defect is a duplicate, never a loss - apart from the duplicates every subscriber that
+            # stays has every item ever pushed
+            for prod in set(v // 10 for v in calls):
+                if [v for v in rest if v // 10 == prod] != sorted(v for v in calls if v // 10 == prod):
+                    return False
     return True
 
 
@@ -1050,6 +1069,8 @@ def sig_zip_reorder(lines):
 def kf_match(kf, prop, flag, name, fin, lines=None):
     m = kf['match']
     if m.get('signature') == 'zip_reorder' and not (lines and sig_zip_reorder(lines)):
+        return False
+    if m.get('signature') == 'in_order_no_gap_modulo_repeats' and not (lines and sig_in_order_modulo_repeats(lines, nogap=True)):
         return False
     if m.get('signature') == 'in_order_modulo_repeats' and not (lines and sig_in_order_modulo_repeats(lines)):
         return False
